@@ -91,6 +91,15 @@ func (t *WeightedMerkleTrie) Update(key, value []byte, weight uint64) error {
 
 func (t *WeightedMerkleTrie) insert(node Node, prefix, key []byte, value Node) (int64, Node, error) {
 	if len(key) == 0 {
+		if hn, ok := node.(*hashNode); ok {
+			// the existing value was collapsed to a hash reference by a commit: load it, otherwise the full
+			// weight of the new value is added on top of the old one
+			rn, err := t.resolveHashNode(hn)
+			if err != nil {
+				return 0, nil, err
+			}
+			node = rn
+		}
 		if v, ok := node.(*valueNode); ok {
 			newVal := value.(*valueNode).value
 			if bytes.Equal(v.value, newVal) {
